@@ -6,8 +6,8 @@ from . import common as C
 from . import pipeline as P
 from . import floor_cfg as F
 
-TIERS = {'quick': dict(ncfg=140, multi=[(3, 0), (3, 1), (5, 2), (3, 4), (3, None), (1, 2)], design='SplitMC.cfg'),
-         'thorough': dict(ncfg=1500, multi=[(n, mp) for n in (1, 3, 5) for mp in (0, 1, 2, 4, None)],
+TIERS = {'quick': dict(ncfg=140, multi=[(3, 0), (3, 1), (5, 2), (3, 4), (3, None), (1, 2), (12, 2), (11, 1)], design='SplitMC.cfg'),
+         'thorough': dict(ncfg=1500, multi=[(n, mp) for n in (1, 3, 5, 12, 23) for mp in (0, 1, 2, 4, None)],
                           design='SplitMC_thorough.cfg')}
 
 
